@@ -73,7 +73,7 @@ def make_case(rng, integ: str):
     cfg = {"integration": integ, "physical": phys, "entry": entry, "frame_size": rng.choice([1, 3, 17, 250]),
            "preset": preset, "delimited": True if entry == "grouped_to_file" else rng.random() < .85,
            "logical": pj.FLAT_LOGICAL[phys], "generalized": mode == "generic", "rdf_star": mode == "generic",
-           "ns": True, "stream_name": ""}
+           "ns": True, "stream_name": "", "params_build": rng.choice(["direct", "direct", "version1", "replace"])}
     return cfg, stmts, ns, mode
 
 
@@ -223,6 +223,14 @@ def judge_rdflib(cfg, stmts, ns, mode):
             src.add(tuple(T.to_rdflib(t) for t in st))
     for p, i in ns:
         src.bind(p, rdflib.URIRef(i), override=True, replace=True)
+    # ... and gives one of rdflib's default namespaces a prefix of its own (dc11: for the DC elements namespace):
+    # a reader made the documented way already binds that namespace as dc:, and must end up like the source
+    rebound = [("dc11", "http://purl.org/dc/elements/1.1/"), ("foaf1", "http://xmlns.com/foaf/0.1/"),
+               ("w3owl", "http://www.w3.org/2002/07/owl#")][len(stmts) % 3]
+    if len(ns) % 2 == 0 and not dataset:
+        # Graph readers only: a Dataset creates its own namespace manager lazily AFTER parsing, and that manager
+        # re-binds rdflib's default prefixes with override - rdflib's doing, whatever the parser delivered
+        src.bind(rebound[0], rdflib.URIRef(rebound[1]), override=True, replace=True)
     out = io.BytesIO()
     src.serialize(out, format="jelly", options=pj.make_options(on), stream=pj.make_stream(on))
     r1 = _new_reader(dataset, None)
